@@ -177,3 +177,14 @@ Qed.
 Example toy_sound : last_report_ok nat nat nat toy_repr (fun x => x)
   (run toy_fast toy_explicit toy_oracle (mkConfig [0; 1] 1 true true false true true true) 9 toy_init).
 Proof. vm_compute. reflexivity. Qed.
+
+(* pairing the remembered MTTKRP with another factor than the one of the last updated mode is not sound (the HALS defect
+   repaired by b2515f1: last mode fixed, MTTKRP of the last-but-one mode multiplied with factors[-1]) *)
+Theorem skeleton_wrong_pairing_refuted :
+  exists (Orc : oracle nat) (C : config) (n : nat) (init : blocks nat),
+    pair_with C <> last (modes C) 0 /\ norm_before_error C = false /\ report_linesearch C = true /\
+    ~ last_report_ok nat nat nat toy_repr (fun x => x) (run toy_fast toy_explicit Orc C n init).
+Proof.
+  exists toy_oracle, (mkConfig [0] 1 false false false false true false), 1, toy_init.
+  split; [simpl; discriminate|]. split; [reflexivity|]. split; [reflexivity|]. vm_compute. discriminate.
+Qed.
